@@ -91,18 +91,35 @@ CALLER_FILTERS = ['ignore', 'ignore', 'error', 'always', 'default', 'error']
 CALLER_FILTER = ['ignore']     # the caller's own process-wide warnings action while the call runs (none of the solver's business)
 
 
-CALLER_ERRSTATES = [None, None, None, 'ignore', 'warn', 'raise']
+CALLER_ERRSTATES = [None, None, None, 'ignore', 'warn', 'raise',
+                    # ... and states that treat the kinds of fault differently (the solver may not mix them up or leave them changed)
+                    {'over': 'ignore', 'invalid': 'raise', 'divide': 'warn'}, {'over': 'raise', 'invalid': 'ignore', 'divide': 'ignore'}, {'over': 'warn', 'invalid': 'ignore', 'divide': 'raise'}]
+
+
+LEAKS = []      # (NumPy error state before a call, after it) whenever a call left it changed
+
+
+def errstate_context(es):
+    import contextlib
+    if not es:
+        return contextlib.nullcontext()
+    return np.errstate(**es) if isinstance(es, dict) else np.errstate(all=es)
+
 CALLER_ERRSTATE = [None]       # the caller's own NumPy floating-point error handling (np.seterr / np.errstate) while the call runs
 
 
 def call(f, *a, **k):
     import contextlib
-    with warnings.catch_warnings(), (np.errstate(all=CALLER_ERRSTATE[0]) if CALLER_ERRSTATE[0] else contextlib.nullcontext()):
+    with warnings.catch_warnings(), errstate_context(CALLER_ERRSTATE[0]):
         warnings.simplefilter(CALLER_FILTER[0])
+        before = dict(np.geterr())
         try:
             return ('ret', f(*a, **k))
         except BaseException as e:  # noqa: BLE001
             return ('exc', type(e).__name__, type(e.__cause__).__name__ if e.__cause__ is not None else None)
+        finally:
+            if dict(np.geterr()) != before:
+                LEAKS.append((before, dict(np.geterr())))
 
 
 def twin(ctx, Model, spec, scripts, opts, a, b, a_label, b_label, case):
@@ -115,6 +132,9 @@ def twin(ctx, Model, spec, scripts, opts, a, b, a_label, b_label, case):
     finally:
         CALLER_FILTER[0] = 'ignore'
         CALLER_ERRSTATE[0] = None
+        if LEAKS:
+            ctx.violation('process-wide-state-changed', f'a solve call left the caller\'s NumPy error state changed: {LEAKS[0][0]} -> {LEAKS[0][1]}', case)
+            del LEAKS[:]
 
 
 def _twin(ctx, Model, spec, scripts, opts, a, b, a_label, b_label, case):
